@@ -69,6 +69,12 @@ type Chain struct {
 	calls  int64
 	failAt int64
 	fired  bool
+	// fault plan on one method: the failNth-th call of failMethod from now
+	failMethod string
+	failNth    int
+	// fault plan on eth_getLogs calls whose address filter is not exactly failLogsSkip
+	failLogsNth  int
+	failLogsSkip common.Address
 	trace  []string
 	keep   bool
 }
@@ -232,6 +238,31 @@ func (c *Chain) FailCall(j int) {
 	c.failAt = c.calls + int64(j)
 }
 
+// FailMethodCall makes the j-th call of the given RPC method from now (1 = the
+// next one) fail once with ErrInjected; j <= 0 clears the plan.
+func (c *Chain) FailMethodCall(method string, j int) {
+	c.mu.Lock()
+	defer c.mu.Unlock()
+	c.fired = false
+	c.failMethod, c.failNth = "", 0
+	if j > 0 {
+		c.failMethod, c.failNth = method, j
+	}
+}
+
+// FailGetLogs makes the j-th eth_getLogs call from now whose address filter is
+// not exactly [skip] fail once with ErrInjected (calls filtering on skip are
+// served and not counted); j <= 0 clears the plan.
+func (c *Chain) FailGetLogs(j int, skip common.Address) {
+	c.mu.Lock()
+	defer c.mu.Unlock()
+	c.fired = false
+	c.failLogsNth, c.failLogsSkip = 0, skip
+	if j > 0 {
+		c.failLogsNth = j
+	}
+}
+
 // FaultFired reports whether the plan of the last FailCall was triggered.
 func (c *Chain) FaultFired() bool { c.mu.Lock(); defer c.mu.Unlock(); return c.fired }
 
@@ -251,6 +282,14 @@ func (c *Chain) enter(method string) error {
 		c.failAt = 0
 		c.fired = true
 		return ErrInjected
+	}
+	if c.failMethod == method {
+		c.failNth--
+		if c.failNth == 0 {
+			c.failMethod = ""
+			c.fired = true
+			return ErrInjected
+		}
 	}
 	return nil
 }
@@ -463,6 +502,13 @@ func (a *ethAPI) GetLogs(ctx context.Context, crit json.RawMessage) ([]types.Log
 	f, err := ParseFilter(crit)
 	if err != nil {
 		return nil, err
+	}
+	if a.c.failLogsNth > 0 && !(len(f.Addresses) == 1 && f.Addresses[0] == a.c.failLogsSkip) {
+		a.c.failLogsNth--
+		if a.c.failLogsNth == 0 {
+			a.c.fired = true
+			return nil, ErrInjected
+		}
 	}
 	return a.c.logsLocked(f)
 }
